@@ -21,6 +21,11 @@ class Inconclusive(Exception):
     pass
 
 
+# evaluators found to read/write function-local static storage while being forward substituted (reported by vcheck
+# under <property>.STATE: the value is then not a function of the current parameters and arguments alone)
+STATE_FINDINGS = []
+
+
 def evaluator_poly(prog, cls, scalar, name, coords, extra_sig=None, hook=None, env=None, freeze=None, want_trace=False):
     """canonical polynomial of the value returned by cls::name(coords...) or None if the class has no override"""
     sig = '%s (%s)' % (scalar, ', '.join([scalar] * len(coords) + (extra_sig or [])))
@@ -37,6 +42,9 @@ def evaluator_poly(prog, cls, scalar, name, coords, extra_sig=None, hook=None, e
     if freeze:
         E.freeze = dict(freeze)
     outs = E.run(fn, arg_names=list(coords) + ['cb%d' % i for i in range(len(extra_sig or []))])
+    for nm, loc_ in E.trace.static_locals:
+        STATE_FINDINGS.append(('%s::%s|%s' % (cat.short(cls), name, nm), loc_ or fn.where,
+                               '%s::%s keeps `%s` in function-local static storage: after the first call its value no longer follows the current parameters' % (cat.short(cls), name, nm)))
     if len(outs) != 1 or outs[0].kind != 'ret' or outs[0].ret is None:
         raise Inconclusive('%s::%s has %d paths' % (cat.short(cls), name, len(outs)))
     u = terms.has_unk(outs[0].ret)
